@@ -113,6 +113,45 @@ def okItems : List (Expr × Expr) → Bool
   | (k, v) :: rest => okExpr k && okExpr v && okItems rest
 end
 
+/-! ### literals and `tjoin` operands (for `known_in_known_out_partial`) -/
+
+/-- expressions whose value is never null: what the parser puts below a `tjoin` -/
+def isTupleForm : Expr → Bool
+  | .forTuple .. => true
+  | .tuple _ => true
+  | _ => false
+
+mutual
+/-- The fragment of expressions covered by `known_in_known_out_partial`:
+    * every literal is wholly known (the parser produces no unknown literals)
+    * the operand of every `tjoin` is a `for` expression in tuple form or a tuple constructor (the template
+      parser builds nothing else); such an operand is never null -/
+def knownOk : Expr → Bool
+  | .lit v => v.whollyKnown
+  | .var _ => true
+  | .getAttr e _ => knownOk e
+  | .index e k => knownOk e && knownOk k
+  | .bin _ l r => knownOk l && knownOk r
+  | .un _ e => knownOk e
+  | .cond c t f => knownOk c && knownOk t && knownOk f
+  | .tuple es => knownOkList es
+  | .object items => knownOkItems items
+  | .forTuple _ _ coll val cond =>
+    knownOk coll && knownOk val && (match cond with | none => true | some ce => knownOk ce)
+  | .forObject _ _ coll key val cond _ =>
+    knownOk coll && knownOk key && knownOk val && (match cond with | none => true | some ce => knownOk ce)
+  | .splat _ src each => knownOk src && knownOk each
+  | .template parts => knownOkList parts
+  | .tjoin t => isTupleForm t && knownOk t
+  | .call _ args expand => knownOkList args && (match expand with | none => true | some le => knownOk le)
+def knownOkList : List Expr → Bool
+  | [] => true
+  | e :: es => knownOk e && knownOkList es
+def knownOkItems : List (Expr × Expr) → Bool
+  | [] => true
+  | (k, v) :: rest => knownOk k && knownOk v && knownOkItems rest
+end
+
 /-! ### assumptions on the function table -/
 
 /-- `SoundFuncs` plus: the declared return type is monotone for `conc`, parameter types are `any` or free of
